@@ -32,7 +32,7 @@ PLAN = {
     "C09": dict(engine="vsim", level="exploration"),
     "C10": dict(engine="vsim", level="exploration"),
     "C11": dict(engine="vsim", level="exploration"),
-    "C12": dict(engine="vconc", level="exploration", race=True),
+    "C12": dict(engine="vconc", level="exploration", race=True, extra=["vproc"]),
     "C13": dict(engine="vproc", level="exploration", server=True),
     "C14": dict(engine="vsim", level="exploration"),
     "C15": dict(engine="vfront", level="exploration"),
@@ -120,7 +120,7 @@ def run(prop, tier, seed, replay, plan, scratch, children, start):
             return 2
         env["VERIF_BIN_" + extra.upper()] = xp
     if race:
-        env["GORACE"] = "halt_on_error=0 log_path=%s/race" % scratch
+        env["GORACE"] = "halt_on_error=0 exitcode=0 log_path=%s/race" % scratch
 
     outdir = os.path.join(VERIF, "out")
     if replay:
@@ -167,7 +167,36 @@ def run(prop, tier, seed, replay, plan, scratch, children, start):
         else:
             reports.append(r)
 
+    if race:
+        RACE["pairs"] = race_pairs(scratch)
     return conclude(prop, tier, seed, plan, reports, crashed, hung, scratch, start, outdir)
+
+
+RACE = {}
+
+
+def race_pairs(scratch):
+    """deduplicate race-detector reports by the outermost resonate function of each of the two stacks"""
+    import glob
+    pairs = {}
+    total = 0
+    for f in glob.glob(os.path.join(scratch, "race.*")):
+        try:
+            text = open(f, errors="replace").read()
+        except OSError:
+            continue
+        for block in text.split("WARNING: DATA RACE")[1:]:
+            total += 1
+            block = block.split("==================")[0]
+            stacks = re.split(r"\n(?:Previous |Goroutine )", block)
+            tops = []
+            for st in stacks[:2]:
+                m = re.findall(r"github.com/resonatehq/resonate/((?:internal|pkg|cmd)/[^\s(]+)\(", st)
+                m = [x for x in m if "verifh" not in x]
+                tops.append(re.sub(r"\.func\d+(\.\d+)*", "", m[0]) if m else "?")
+            key = " <-> ".join(sorted(tops))
+            pairs[key] = pairs.get(key, 0) + 1
+    return {"reports": total, "distinct_pairs": pairs}
 
 
 def panic_signature(text):
@@ -300,6 +329,7 @@ def conclude(prop, tier, seed, plan, reports, crashed, hung, scratch, start, out
             "workers": len(reports),
             "workers_died": len(crashed),
             "extra": extra,
+            "race_detector": RACE.get("pairs", {}),
         },
         "assumptions": assumptions,
         "wall_s": round(time.time() - start, 2),
